@@ -171,16 +171,39 @@ def battery(ctx, rng, size):
         for t in ({}, {"header": {"kid": "shared"}}):
             prod.append(("jwe.enc", {"jwe": {"protected": {"enc": "A128GCM"}}, "rcp": t, "jwk": ks, "pt": "00ff", "rand": rng.randbytes(400).hex(), "_key": ks}))
             prod.append(("jwe.enc_jwk", {"jwe": {"protected": {"enc": "A256GCM"}}, "rcp": t, "jwk": ks, "cek": {}, "rand": rng.randbytes(400).hex()}))
+    # compression in the protected header (the read-only calls then run the inflater, and the helper that looks for "zip")
+    for wrap, enc, n in (("A128KW", "A128GCM", 9000), ("dir", "A128CBC-HS256", 300), ("ECDH-ES", "A256GCM", 5000)):
+        key = E.key_for(pool, wrap, enc, rng)
+        prod.append(("jwe.enc", {"jwe": {"protected": {"alg": wrap, "enc": enc, "zip": "DEF"}}, "jwk": key, "pt": (b"zip " * n).hex(),
+                                 "rand": rng.randbytes(200).hex(), "_key": key}))
     sent = [(o, {k: v for k, v in a.items() if not k.startswith("_")}) for o, a in prod]
     real = ctx.real(sent)
     ro = []
+
+    def forms_of(t):
+        """the token with its protected header as the object it encodes (what a caller holds before serialising), with
+        other JSON types in its place, and with shared / per-entry unprotected headers added"""
+        out = []
+        if isinstance(t, dict) and isinstance(t.get("protected"), str):
+            try:
+                obj = json.loads(G.b64d(t["protected"]))
+            except Exception:
+                obj = None
+            if isinstance(obj, dict):
+                out.append(dict(t, protected=obj))
+                out.append(dict(t, protected=dict(obj, extra={"nested": [1, 2]}), unprotected={"kid": "u", "zip": "DEF"}, header={"kid": "h", "x": [1]}))
+            for v in (5, 1.5, [1, [2]], [], True, None, "", "!!"):
+                out.append(dict(t, protected=v))
+        return out
     for (o, a), r in zip(prod, real):
         if not r.get("ok"):
             continue
         if o == "jws.sig":
             tok = r["jws"]
             keys = a["jwk"]
-            variants = [tok] + mutations(rng, tok, size)
+            variants = [tok] + forms_of(tok) + mutations(rng, tok, size)
+            if isinstance(tok.get("signatures"), list):
+                variants += [dict(tok, signatures=[x] + tok["signatures"][1:]) for x in forms_of(tok["signatures"][0])[:6]]
             for t in variants:
                 ro.append(("jws.ver", {"jws": t, "jwk": keys, "all": False}))
                 ro.append(("jws.ver", {"jws": t, "jwk": keys, "all": True}))
@@ -196,10 +219,13 @@ def battery(ctx, rng, size):
         elif o == "jwe.enc":
             tok = r["jwe"]
             key = a["_key"]
-            for t in [tok] + mutations(rng, tok, size):
+            for t in [tok] + forms_of(tok) + mutations(rng, tok, size):
                 ro.append(("jwe.dec", {"jwe": t, "jwk": key, "rand": "00" * 600}))
                 ro.append(("jwe.dec_jwk", {"jwe": t, "jwk": key, "rand": "00" * 600}))
                 rc = t.get("recipients") if isinstance(t, dict) else None
+                if isinstance(rc, list) and rc:
+                    ro.append(("jwe.dec", {"jwe": t, "rcp": rc[-1], "jwk": key, "rand": "00" * 600}))
+                    ro.append(("jwe.dec_jwk", {"jwe": t, "rcp": rc[0], "jwk": key, "rand": "00" * 600}))
                 ro.append(("jwe.hdr", {"jwe": t, "rcp": rc[0] if isinstance(rc, list) and rc else t}))
     # recover CEKs for dec_cek / dec_cek_io
     dj = [(o, a) for o, a in ro if o == "jwe.dec_jwk"][::max(1, size)]
